@@ -173,6 +173,21 @@ func init() {
 	also("C20", "(pool.buffers) items of the previous / current / next slot go to the prev… / current… / next… generation of the sync-committee pool's buffers; (pool.covers) the stored aggregate is asked whether it covers the incoming one, not the reverse.", "pool.buffers", "pool.covers")
 	also("C15", "(cmp.spec@ExtraData) a payload header whose extra_data has exactly MAX_EXTRA_DATA_BYTES bytes can be stored.", "cmp.spec@common.ExtraData")
 	also("C04", "(cmp.spec@ExtraData) as C15.", "cmp.spec@common.ExtraData")
+	also("C09", "(fc.commit) a new justified/finalized pair is taken as one step: the graph is re-weighted and the balances stored on every path that stores the new justified checkpoint, and the pin is cleared on every path to the prune.", "fc.commit")
+	also("C10", "(fc.commit) as C09.", "fc.commit")
+	also("C08", "(cache.recursion) the pubkey cache that accompanies the context forks out with the conflicting index as its trusted prefix.", "cache.recursion")
+	also("C01", "(validator.new) a deposit for a new key adds the spec's validator record and the deposited amount as its balance.", "validator.new")
+	also("C13", "(validator.new) as C01: genesis deposits.", "validator.new")
+	also("C11", "(lock.held@forkchoice) a query that may refresh the best-child links runs under the exclusive lock.", "lock.held@forkchoice.")
+	also("C12", "(cmp.spec@phase0.Validate|altair.Validate) the conditions of process_voluntary_exit / process_*_slashing that the gossip validators apply through the phase0/altair helpers.", "cmp.spec@phase0.ValidateVoluntaryExit|phase0.ValidateProposerSlashing|phase0.ValidateAttesterSlashing|altair.Validate")
+	also("C14", "(slots.order) the fork upgrade happens in the slot round that reaches the fork's first slot (after the slot is set).", "slots.order")
+	also("C15", "(global.hasher) no hasher with hidden scratch memory is shared through a package-level variable.", "global.hasher")
+	also("C01", "(loop.every) an operation that applies to every element of a set (each slashable attester) is not cut short by a break.", "loop.every")
+	also("C03", "(loop.every) as C01.", "loop.every")
+	also("C02", "(loop.every) as C01: epoch sweeps.", "loop.every")
+	also("C15", "(node.copy) a leaf handed out by a tree is not written through.", "node.copy")
+	also("C04", "(text.hex) the text form of a fixed-size byte type decodes exactly 2*N hex digits into the whole value and removes `0x` as a prefix.", "text.hex")
+	also("C07", "(epc.shared) a shuffling owns its arrays: none is taken from a slice the caller hands in or from another structure.", "epc.shared")
 	also("C19", fdoc+" deneb's activation churn cap min(MAX_PER_EPOCH_ACTIVATION_CHURN_LIMIT, churn limit).", "formula.spec@deneb.ProcessEpochRegistryUpdates")
 	also("C02", "(committee.partition: sampling) the sync-committee sampler weighs the candidate's effective balance as read from the state's registry, under the spec's single acceptance test.", "committee.partition")
 }
